@@ -85,7 +85,7 @@ pub fn props() -> Vec<PropCfg> {
         },
         PropCfg {
             id: "C04",
-            profiles: &[("C04", 3), ("C04-encfail", 1)],
+            profiles: &[("C04", 5), ("C04-encfail", 2), ("C04-stock", 2)],
             quick_runs: 60000,
             thorough_runs: 1000000,
             level: "exploration",
